@@ -446,6 +446,19 @@ Theorem c11_bytes_func_sound : forall nm tg (bytes : list Z) (sch : list Z) q s,
 Proof. exact Text3.bytes_func_sound. Qed.
 Print Assumptions c11_bytes_func_sound.
 
+(* Symbolizer level from bytes: a module whose SymbolFile was parsed from such a byte string meets
+   [module_parsed], the hypothesis of c11_module_frame_total — so walk_stack -> fill_source_line_info ->
+   Symbolizer::fill_symbol over a module list whose symbol files were all parsed from bytes never
+   panics and yields the pure result for the module C08's lookup finds, inlines reversed. *)
+Theorem c11_symbolizer_from_bytes : forall nm tg (bytes : list Z) (sch : list Z) q s,
+  RM.C09.Driver.drive_c (map Grammar.to_rle (fst (Grammar.split_bytes bytes [])))
+                        (Z.of_nat (length (snd (Grammar.split_bytes bytes [])))) sch
+    = Ret (RM.C09.Model.ROk q, s) ->
+  Z.of_nat (length bytes) < two32 - 1 -> Text3.enc_names_ok nm tg q ->
+  exists t, Grammar.finish q = Ret t /\ forall b sz, module_parsed (b, sz, Some (Text2.symtab_of_table nm tg t)).
+Proof. exact Text3.bytes_module_parsed. Qed.
+Print Assumptions c11_symbolizer_from_bytes.
+
 (* get_inlinee_at_depth, exactly, for EVERY FUNC block — overlapping INLINE ranges, duplicate
    (depth, address) keys, records in any order.  [kept fr] = the INLINE ranges of the block with
    non-zero size (finish_item's retain); [nearest l d x c]: c is the greatest record of l, in the
